@@ -192,11 +192,11 @@ Definition exec_pure (o : opc) (imms : list arg) (stk : list value) : pres :=
   | O_b_ge, VB b :: VB a :: r => if bm_ok a b then okbool (be_decode b <=? be_decode a) r else PFail
   | O_b_eq, VB b :: VB a :: r => if bm_ok a b then okbool (be_decode a =? be_decode b) r else PFail
   | O_b_neq, VB b :: VB a :: r => if bm_ok a b then okbool (negb (be_decode a =? be_decode b)) r else PFail
-  | O_b_or, VB b :: VB a :: r => if bm_ok a b then POk (VB (bytes_bitop N.lor a b) :: r) else PFail
-  | O_b_and, VB b :: VB a :: r => if bm_ok a b then POk (VB (bytes_bitop N.land a b) :: r) else PFail
-  | O_b_xor, VB b :: VB a :: r => if bm_ok a b then POk (VB (bytes_bitop N.lxor a b) :: r) else PFail
-  | O_b_not, VB a :: r =>
-      if blen a <=? MAX_BYTEMATH then POk (VB (map (fun c => n2b (255 - b2n c)) a) :: r) else PFail
+  (* the bitwise byte ops take plain byte strings: no 64-byte limit (only the arithmetic ones are bigint ops) *)
+  | O_b_or, VB b :: VB a :: r => okb (bytes_bitop N.lor a b) r
+  | O_b_and, VB b :: VB a :: r => okb (bytes_bitop N.land a b) r
+  | O_b_xor, VB b :: VB a :: r => okb (bytes_bitop N.lxor a b) r
+  | O_b_not, VB a :: r => POk (VB (map (fun c => n2b (255 - b2n c)) a) :: r)
   | O_bsqrt, VB a :: r =>
       if blen a <=? MAX_BYTEMATH then POk (VB (be_min (isqrt (be_decode a))) :: r) else PFail
   (* ---- stack manipulation ---- *)
